@@ -143,46 +143,48 @@ theorem cast_sumSq (ns : List Int) :
     simp only [List.map_cons, List.foldr_cons, lsumSq, toRats] at ih ⊢
     rw [← ih]; push_cast; ring
 
-/-- the arithmetic of one group: the one-pass formula on exact sums = the two-pass variance -/
+/-- the arithmetic of one group: the one-pass formula on exact sums = the two-pass variance; null when the group has no
+more values than `ddof` -/
 theorem varFrom_eq (ns : List Int) (ddof : Nat) :
     varFrom (.num (((ns.map fun n => n * n).foldr (· + ·) 0))) (.num (ns.foldr (· + ·) 0)) (.num (ns.length : Nat)) ddof
       = (let xs : List Rat := toRats ns
-        if xs.length = 0 ∨ xs.length = ddof then none
+        if xs.length ≤ ddof then none
         else some (lsumDev (lsum xs / (xs.length : Rat)) xs / ((xs.length : Rat) - (ddof : Rat)))) := by
   simp only [varFrom, toRats, List.length_map]
-  by_cases hz : ns.length = 0
-  · simp [fdiv, hz]
-  · have hne : (toRats ns) ≠ [] := by
+  by_cases hle : ns.length ≤ ddof
+  · have : ((ns.length : Nat) : Int) ≤ (ddof : Int) := by exact_mod_cast hle
+    simp [hle, this]
+  · have hlt : ¬ (((ns.length : Nat) : Int) ≤ (ddof : Int)) := by
+      intro h; apply hle; exact_mod_cast h
+    have hz : ns.length ≠ 0 := by omega
+    have hne : (toRats ns) ≠ [] := by
       intro hnil; apply hz; simpa [toRats] using congrArg List.length hnil
     have hlenR : ((ns.length : Int) : Rat) ≠ 0 := by exact_mod_cast hz
-    simp only [fdiv, Int.cast_natCast] at hlenR ⊢
+    simp only [fdiv, Int.cast_natCast, hlt, if_false, hle] at hlenR ⊢
     rw [if_neg hlenR]
     simp only
-    by_cases hd : ns.length = ddof
-    · have : ((ns.length : Rat) - (ddof : Rat)) = 0 := by rw [hd]; ring
-      simp [hd]
-    · have hsub : ((ns.length : Rat) - (ddof : Rat)) ≠ 0 := by
-        intro h0
-        apply hd
-        have : (ns.length : Rat) = (ddof : Rat) := sub_eq_zero.mp h0
-        exact_mod_cast this
-      rw [if_neg hsub, if_neg (by omega)]
-      have := var_identity (toRats ns) (ddof : Rat) hne
-      simp only [toRats, List.length_map] at this
-      rw [← this, cast_sumSq, cast_sum]
-      rfl
+    have hsub : ((ns.length : Rat) - (ddof : Rat)) ≠ 0 := by
+      intro h0
+      have : (ns.length : Rat) = (ddof : Rat) := sub_eq_zero.mp h0
+      have : ns.length = ddof := by exact_mod_cast this
+      omega
+    rw [if_neg hsub]
+    have := var_identity (toRats ns) (ddof : Rat) hne
+    simp only [toRats, List.length_map] at this
+    rw [← this, cast_sumSq, cast_sum]
+    rfl
 
 /-- **`GroupBy.var` end to end**: for every mask kind, thread count and value chunking, the variance the
 library computes for group `g` from its three kernel calls is the two-pass sample variance
 `Σ(x − x̄)² / (n − ddof)` of the non-null values of the selected rows of `g`; it is null exactly when
-the group has no such value or `n = ddof` -/
+the group has no more such values than `ddof` -/
 theorem group_var_eq_two_pass (k : Kind) (hk : k.Supported) (rows : List Row) (mask : Mask) (threads : Nat)
     (vch : Option (List Nat)) (ddof : Nat) (out : Int → Option Rat)
     (hwf : ∀ r ∈ rows, WF k r.2) (hm : ∀ m, mask = .bool m → m.length = rows.length)
     (h : groupVar modelReducers k rows mask threads vch ddof = some out) (g : Int) (hg : 0 ≤ g) :
     ∃ sel, selectRows rows mask = some sel ∧
       out g = (let xs : List Rat := toRats (groupNums k sel g)
-        if xs.length = 0 ∨ xs.length = ddof then none
+        if xs.length ≤ ddof then none
         else some (lsumDev (lsum xs / (xs.length : Rat)) xs / ((xs.length : Rat) - (ddof : Rat)))) := by
   unfold groupVar at h
   cases h2 : groupKernel modelReducers .sumSquares k rows mask threads vch with
